@@ -336,6 +336,46 @@ async def expunged_scenario(backend):
     return errors, n
 
 
+FIRST_AFTER_EXPUNGE = (b'MOVE 1 Box', b'MOVE 1:* Other', b'UID MOVE 1:* Other', b'COPY 1 Other', b'UID COPY 1:* Other', b'STORE 1 +FLAGS (\\Seen)',
+                       b'UID STORE 1:* FLAGS.SILENT (\\Seen)', b'SEARCH ALL', b'UID SEARCH ALL', b'FETCH 1:* (UID FLAGS)', b'UID EXPUNGE 1:*',
+                       b'EXPUNGE', b'CLOSE')
+
+
+async def expunged_first_command_scenario(backend, line):
+    """as expunged_scenario, but `line` is the VERY FIRST command of session A after session B's expunge (A has not been told
+    in any way): it must be answered and A's connection must survive"""
+    if backend == 'dict':
+        w = await World().start()
+        login = {}
+    else:
+        from .imapdrv import MaildirWorld
+        w = await MaildirWorld(layout=backend).start(users=(('alice', 'apass'),))
+        login = dict(user=b'alice', pw=b'apass')
+    a = await w.client('a', **login)
+    b = await w.client('b', **login)
+    await a.cmd(b'CREATE Box')
+    await a.cmd(b'CREATE Other')
+    for i in range(2):
+        await a.cmd(b'APPEND Box ' + lit(b'Subject: m%d\r\n\r\nx\r\n' % i))
+    await a.cmd(b'SELECT Box')
+    await b.cmd(b'SELECT Box')
+    await b.cmd(b'STORE 1:* +FLAGS.SILENT (\\Deleted)')
+    await b.cmd(b'EXPUNGE')
+    errors = []
+    r = await a.cmd(line)
+    if r['closed'] or not r['answered']:
+        exc = a.exception()
+        errors.append(f'{backend}: right after another session expunged the messages, {line!r} ended the connection'
+                      + (f' with {exception_site(exc)}' if exc else '') + f' (answers {b"".join(r["all"])[-80:]!r})')
+    else:
+        parsed, errs, eb = parse_stream(bytes(a.writer.buf), {x['tag'] for x in a.log})
+        errors += [f'{backend}: {line!r} right after another session\'s expunge: {e}' for e in errs]
+    await w.close()
+    if hasattr(w, 'cleanup'):
+        w.cleanup()
+    return errors
+
+
 def _worker(sc):
     if sc[0] == 'expunged':
         try:
